@@ -53,6 +53,8 @@ def run_history(case):
     import copy
 
     m = Model()
+    O.reset_objects()
+    vops = O.resolve_aliases(ops)  # what the oracles read: a kept surrogate object passed again = its original content
     R, S = [], []
     originals = []  # (model that was deep-copied, its content and ids at that moment)
     carried = None  # (model, its snapshot, its ids) as read after the previous op — nothing touched the model since
@@ -65,8 +67,10 @@ def run_history(case):
             ids_before = O.ids_of(m) if check else None
         ans = None
         out = "ok"
+        entry = None
         if op[0] == "q":
             ans = O.run_query(m, op)
+            entry = O.LAST_ENTRY[0]
         elif op[0] == "fork":
             old = m
             if len(op) > 1 and op[1] == "pickle":
@@ -100,6 +104,8 @@ def run_history(case):
                 out = type(e).__name__
         r = {"out": out, "ids": O.ids_of(m), "keys": O.keylists(m), "ans": ans, "changed": False,
              "effect": "as documented"}
+        if op[0] == "q":
+            r["entry"] = entry  # the public method the query reached first (Lean: `Query.entry`)
         s = None
         if check:
             try:
@@ -113,10 +119,10 @@ def run_history(case):
                 r["changed"] = after != before or r["ids"] != ids_before
             s = {"keys": r["keys"], "changed": False, "ans": None, "effect": "as documented"}
             if out == "ok" and op[0] not in ("q", "fork", "call"):
-                exp = c03spec.expected_content(before, op)
+                exp = c03spec.expected_content(before, vops[i])
                 if exp is not None and exp != after:
                     r["effect"] = {"content differs in": [k for k in O.KEYS if exp[k] != after[k]]}
-            exp = (c03spec.expected_outcome(before, op) if op[0] not in ("q", "fork", "call")
+            exp = (c03spec.expected_outcome(before, vops[i]) if op[0] not in ("q", "fork", "call")
                    else None if op[0] == "call" else "ok")
             s["out"] = r["out"] if exp is None else exp
             fresh = None
@@ -147,6 +153,8 @@ def run_history(case):
             if r["changed"] and op[0] in O.PLURAL and _prefix_applied(before, op, after):
                 r["prefix"] = True
                 s["prefix"] = True
+        if check and out != "ok" and op[0] in c03spec.SURROGATE_PATHS:
+            r["surpath"] = c03spec.surrogate_reject_path(before, vops[i])
         R.append(r)
         S.append(s)
     if originals and S and S[-1] is not None:
@@ -190,7 +198,7 @@ def pool():
 def model_histories(cases):
     """M: per history, per op >= check_from {"out","ids","keys","ans"} from the Lean state machine
     (None for the build prefix)"""
-    res = driver.call_batch([{"op": "c03", "ops": [O.canon_op(o) for o in c["ops"]], "from": c.get("check_from", 0)}
+    res = driver.call_batch([{"op": "c03", "ops": [O.canon_op(o) for o in O.resolve_aliases(c["ops"])], "from": c.get("check_from", 0)}
                              for c in cases])
     out = []
     for c, r in zip(cases, res):
@@ -202,6 +210,7 @@ def model_histories(cases):
             if q[0] == "q":
                 # what `freshAnswer` (the right-hand side of C03_fresh_equiv) says; compared with the real fresh model
                 ob["fresh"] = _canon_q(o.get("fresh"), q)
+                ob["entry"] = o.get("entry")
             if "rebuilt" in o:
                 # the Lean model built from scratch by `rebuild` (C03_refines_fresh); compared with the real fresh model
                 ob["rebuilt"] = {"ids": sorted(o["rebuilt"]["ids"]), "keys": o["rebuilt"]["keys"],
@@ -282,6 +291,8 @@ def m_view(r, mobs):
         v["prefix"] = True
     if "forks" in r:
         v["forks"] = r["forks"]
+    if "surpath" in r:
+        v["surpath"] = r["surpath"]
     return v
 
 
@@ -302,6 +313,7 @@ def check_history(arg):
         rep["skipped"] = True
         return rep
     rep["muts"] = [ops[i][0] for i in idx if ops[i][0] not in ("q", "fork")]
+    rep["surpaths"] = [f"{ops[i][0]}:{R[i]['surpath']}:{R[i]['out']}" for i in idx if "surpath" in R[i]]
     rep["queries"] = [ops[i][1] + (":" + ops[i][2] if ops[i][1] == "names" else "") for i in idx if ops[i][0] == "q"]
     for i in idx:
         if ops[i][0] == "fork":
@@ -407,6 +419,8 @@ class Judge:
             cov.setdefault("mutators_hit", {})[o] = cov.setdefault("mutators_hit", {}).get(o, 0) + 1
         for o in rep.get("queries", []):
             cov.setdefault("queries_hit", {})[o] = cov.setdefault("queries_hit", {}).get(o, 0) + 1
+        for o in rep.get("surpaths", []):
+            cov.setdefault("surrogate_rejections_hit", {})[o] = cov.setdefault("surrogate_rejections_hit", {}).get(o, 0) + 1
         for k, v in rep["outcomes"].items():
             cov.setdefault("outcomes_hit", {})[k] = cov.setdefault("outcomes_hit", {}).get(k, 0) + v
         for pl in rep["plural"]:
@@ -457,6 +471,16 @@ def setup(ctx):
 
     ctx.translate(T.generate)
     ctx.build(PROPS)
+    if ctx.driver_ok:
+        # the Lean lists (mutators from the generated table, `modelledEntries`, `outOfScope`) against the harness' own
+        try:
+            L = driver.call_batch([{"op": "c03", "lists": True}])[0]
+            lean = (set(L["modelled"]) - {"__eq__"}) | set(L["out"]) | set(L["mutators"])
+            if lean != O.KNOWN_PUBLIC or set(L["modelled"]) & set(L["out"]):
+                ctx.add_drift({"lists": "public surface"}, sorted(O.KNOWN_PUBLIC ^ lean), sorted(set(L["modelled"]) & set(L["out"])),
+                              "harness KNOWN_PUBLIC vs Lean mutators + modelledEntries + outOfScope")
+        except Exception as e:  # noqa: BLE001
+            ctx.notes.append(f"surface lists not comparable: {e!r}"[:200])
     ctx.rule = (
         "op histories over all 30 public Model mutators (valid and invalid arguments, keyword / object variants, "
         "functions with stated signatures) and 35 query forms, deep copies; distinct = "
@@ -486,8 +510,8 @@ def run(ctx):
               if e.get("witness", {}).get("ops") and e["witness"]["ops"][0] != "BASE"]
     evaluate(ctx, corpus, judge)
     evaluate(ctx, list(G.arity_histories()) + list(G.extra_histories()) + list(G.copy_histories())
-             + list(G.empty_flux_histories()) + list(G.degenerate_histories()) + list(G.shadow_histories()),
-             judge)
+             + list(G.empty_flux_histories()) + list(G.degenerate_histories()) + list(G.shadow_histories())
+             + list(G.scan_histories()) + list(G.alias_histories()) + list(G.readout_data_histories()), judge)
     ctx.exhaustive = True
     thorough = ctx.tier == "thorough"
     cur = []
@@ -501,6 +525,11 @@ def run(ctx):
     p2 = list(G.pairs2())
     for i in range(0, len(p2), 400):
         evaluate(ctx, p2[i:i + 400], judge)
+    hit = {k.rsplit(":", 1)[0] for k in ctx.extra_cov.get("surrogate_rejections_hit", {})}
+    want = {f"{m}:{p_}" for m, ps in c03spec.SURROGATE_PATHS.items() for p_ in ps}
+    ctx.extra_cov["surrogate_rejection_paths_missed"] = sorted(want - hit)
+    if want - hit:
+        ctx.notes.append(f"rejecting paths of the surrogate mutators not reached by the generator: {sorted(want - hit)}")
     # public methods nobody has described (a NEW method in the source: C03_table_surface / the translator have already
     # broken the proof side): look for a failing input by calling them inside histories — the fresh-rebuild oracle
     # needs no model of the method (edits without invalidation, ids out of step, half-applied rejections show)
